@@ -57,8 +57,11 @@ class AccessTokenHelper(TokenEndpointHelper):
 
         if resource_indicators_config is not None:
             if "policy" not in resource_indicators_config:
-                policy = {"policy": {"function": validate_resource_indicators_policy}}
-                resource_indicators_config.update(policy)
+                # The default policy, for this request: the configuration stays as it is
+                resource_indicators_config = dict(
+                    resource_indicators_config,
+                    policy={"function": validate_resource_indicators_policy},
+                )
 
             req = self._enforce_resource_indicators_policy(req, resource_indicators_config)
 
